@@ -446,7 +446,12 @@ func (r *reader) readMap(n datamodel.Node, path string, length int64) model.Val 
 		r.sameChild(cp, "LookupBySegment", cv, func() (datamodel.Node, error) {
 			return n.LookupBySegment(datamodel.PathSegmentOfString(e.k))
 		})
-		r.sameChild(cp, "LookupByNode(foreign key)", cv, func() (datamodel.Node, error) { return n.LookupByNode(foreignString(e.k)) })
+		if r.opt.Typed {
+			// typed maps may insist on key nodes of their own key type (an error, never a panic)
+			r.sameChildIfAnswered(cp, "LookupByNode(foreign key)", cv, func() (datamodel.Node, error) { return n.LookupByNode(foreignString(e.k)) })
+		} else {
+			r.sameChild(cp, "LookupByNode(foreign key)", cv, func() (datamodel.Node, error) { return n.LookupByNode(foreignString(e.k)) })
+		}
 		r.sameChild(cp, "LookupByNode(own key)", cv, func() (datamodel.Node, error) { return n.LookupByNode(e.kn) })
 	}
 	if !r.opt.Light {
